@@ -638,6 +638,17 @@ func (fa *FA) sym1(v ssa.Value) *Sym {
 				return &Sym{Op: "append", K: "append:" + fa.uniq(v), V: v, Args: args, T: v.Type()}
 			}
 		}
+		if k, ok := fa.getterKey(x); ok {
+			s := fa.atom("call", v, k)
+			s.Aux = calleeName(&x.Call)
+			if x.Call.IsInvoke() {
+				s.Args = append(s.Args, fa.Sym(x.Call.Value))
+			}
+			for _, a := range x.Call.Args {
+				s.Args = append(s.Args, fa.Sym(a))
+			}
+			return s
+		}
 		s := fa.atom("call", v, "call:"+fa.uniq(v)+":"+calleeName(&x.Call))
 		s.Aux = calleeName(&x.Call)
 		for _, a := range x.Call.Args {
@@ -696,6 +707,20 @@ func (fa *FA) loadSym(ld *ssa.UnOp) *Sym {
 	c := addrClass(addr)
 	ver := fa.versionAt(ld, c)
 	as := fa.Sym(addr)
+	// store-to-load forwarding: the version was created by a store through the very same
+	// address expression (must-alias), so the load yields the stored value.
+	if ver > 0 && ver < 1000 {
+		for in, id := range fa.verInfoFor(c).clob {
+			if id != ver {
+				continue
+			}
+			if st, ok := in.(*ssa.Store); ok && st != nil {
+				if fa.Sym(st.Addr).K == as.K && types.Identical(st.Val.Type(), ld.Type()) {
+					return fa.Sym(st.Val)
+				}
+			}
+		}
+	}
 	return &Sym{Op: "ld", K: fmt.Sprintf("ld(%s)@%d", as.K, ver), V: ld, Args: []*Sym{as}, T: ld.Type(), Aux: string(c)}
 }
 
@@ -958,7 +983,15 @@ func (fa *FA) linSym(s *Sym, mod int) *Lin {
 		return fa.linLen(s, mod)
 	case "cap":
 		return fa.linCap(s)
-	case "ld", "param", "fv", "phi", "call", "ext", "fld", "other", "un", "ta":
+	case "call":
+		// binary.Size of a fixed-size integer is a constant
+		if s.Aux == "encoding/binary.Size" && len(s.Args) == 1 {
+			if b, _, ok := intBits(s.Args[0].T); ok {
+				return linConst(int64(b / 8))
+			}
+		}
+		return linAtom(s)
+	case "ld", "param", "fv", "phi", "ext", "fld", "other", "un", "ta":
 		return linAtom(s)
 	}
 	return linAtom(s)
@@ -1079,4 +1112,73 @@ func (fa *FA) linCap(s *Sym) *Lin {
 		return fa.linSym(x.Args[0], 0)
 	}
 	return linAtom(s)
+}
+
+// ---- pure getters ------------------------------------------------------------------
+
+var getterCache = map[*ssa.Function]*getterInfo{}
+
+type getterInfo struct {
+	pure    bool
+	classes []locClass
+}
+
+// pureGetter: the function only loads fields of its arguments and returns a value
+// computed from them (no stores, calls, allocation of escaping memory, channel ops).
+func pureGetter(fn *ssa.Function) *getterInfo {
+	if gi, ok := getterCache[fn]; ok {
+		return gi
+	}
+	gi := &getterInfo{pure: fn.Blocks != nil}
+	for _, b := range fn.Blocks {
+		for _, in := range b.Instrs {
+			switch x := in.(type) {
+			case *ssa.FieldAddr, *ssa.Field, *ssa.Return, *ssa.Convert, *ssa.ChangeType, *ssa.BinOp, *ssa.DebugRef, *ssa.If, *ssa.Jump, *ssa.Phi, *ssa.MakeInterface:
+			case *ssa.UnOp:
+				if x.Op == token.MUL {
+					gi.classes = append(gi.classes, addrClass(x.X))
+				}
+			default:
+				gi.pure = false
+			}
+		}
+	}
+	getterCache[fn] = gi
+	return gi
+}
+
+// getterKey: canonical, memory-versioned key for calls of pure getters
+// (e.g. Channel.MSize()), so that two reads with no intervening write agree.
+func (fa *FA) getterKey(c *ssa.Call) (string, bool) {
+	var callees []*ssa.Function
+	if f := staticCallee(&c.Call); f != nil {
+		if !fa.P.InModule(f) {
+			return "", false
+		}
+		callees = []*ssa.Function{f}
+	} else if c.Call.IsInvoke() {
+		callees = fa.ms.calleesOf(c)
+	}
+	if len(callees) == 0 {
+		return "", false
+	}
+	vers := []string{}
+	for _, f := range callees {
+		gi := pureGetter(f)
+		if !gi.pure {
+			return "", false
+		}
+		for _, cl := range gi.classes {
+			vers = append(vers, fmt.Sprintf("%s@%d", cl, fa.versionAt(c, cl)))
+		}
+	}
+	sort.Strings(vers)
+	args := []string{}
+	if c.Call.IsInvoke() {
+		args = append(args, fa.Sym(c.Call.Value).K)
+	}
+	for _, a := range c.Call.Args {
+		args = append(args, fa.Sym(a).K)
+	}
+	return "get:" + calleeName(&c.Call) + "(" + strings.Join(args, ",") + ")[" + strings.Join(vers, ",") + "]", true
 }
